@@ -482,7 +482,10 @@ def run_check(prop_mod, tier, verif_seed, nruns=None, workers=None, wall_cap=Non
         if 'case' in res and len(agg['samples']) < 3 and not res['violations'] and res.get('nontrivial'):
             agg['samples'].append({'arm': arm, 'run': res['i'], 'case': res['case']})
         for v in res['violations']:
-            key = (arm, v['cls'], v['signature'])
+            # grouped also by the recorded finding that the violation's own features match (or none), so that a
+            # recorded finding can never absorb a different violation that happens to share class and signature
+            kf = match_known(known, prop_mod.ID, arm, v)
+            key = (arm, v['cls'], v['signature'], kf['id'] if kf is not None else '')
             groups.setdefault(key, []).append((len(json.dumps(res.get('case'))), res.get('case'), v, res['i']))
 
     # determinism sample: the first runs are executed again (other worker count); the event-log digests must agree
@@ -502,7 +505,7 @@ def run_check(prop_mod, tier, verif_seed, nruns=None, workers=None, wall_cap=Non
     known_hits = []
     replay_dir = os.path.join(VERIF_DIR, 'replays', prop_mod.ID)
     for key in sorted(groups):
-        arm_name, cls, signature = key
+        arm_name, cls, signature, _kid = key
         entries = sorted(groups[key], key=lambda e: (e[0], e[3]))
         size, case, viol, i = entries[0]
         arm = arms[arm_name]
